@@ -36,6 +36,7 @@ def stop_fires(stop, i, layer):
 
 def expected_prefix(layers, opts, stop):
     """The documented rule, stated independently of the code, over the true distance classes `layers`."""
+    opts = bfsrun.with_defaults(opts)
     limit = opts.get("max_layer_size_to_store", 1000) or 10**15
     max_d = opts.get("max_diameter", 1000000)
     max_e = opts.get("max_layer_size_to_explore", 10**12)
